@@ -262,6 +262,11 @@ def fixed_cases(component):
                                                "data 3 0 0 1 0", "tick", "tick", "set 4=5", "tick", "tick", "tick"]))
     cs.append(("round-robin", ["side s", "wu 0 1000000"] + ["reg %d" % i for i in (1, 3, 5, 7)] +
                ["data %d 5 40000 0 2" % i for i in (1, 3, 5, 7)] + ["tick"] * 14 + ["wu 3 100000", "wu 7 5"] + ["tick"] * 8))
+    cs.append(("window-update-before-waiting", ["side s", "reg 1", "reg 3", "set 4=4", "data 1 5 5 0 1", "data 3 5 5 0 1", "tick", "wu 3 100",
+                                                "tick", "tick", "wu 1 100", "tick", "tick", "data 1 5 200 0 2", "wu 1 1", "tick", "set 4=3", "wu 1 50",
+                                                "tick", "set 4=60", "tick", "tick", "set 4=0", "data 3 5 5 0 1", "wu 3 1000", "tick", "tick"]))
+    cs.append(("exhausted-exactly-then-credit", ["side c", "ch 1 - 0", "set 4=15", "data 1 5 10 0 1", "data 1 5 10 0 1", "tick", "tick", "wu 1 1", "tick",
+                                                 "wu 1 14", "tick", "tick", "set 4=14", "data 1 0 0 1 0", "tick", "set 4=15", "tick", "tick"]))
     return [Case(component, ops, "fixed-" + tag) for tag, ops in cs]
 
 
